@@ -211,8 +211,11 @@ class AsyncProtocol(Protocol, EventManager[PhysicalDevice]):
         while self.connected.is_set():
             try:
                 if not queues.write.empty():
-                    await writer.write(await queues.write.get())
-                    queues.write.task_done()
+                    frame = await queues.write.get()
+                    try:
+                        await writer.write(frame)
+                    finally:
+                        queues.write.task_done()
 
                 if response := await reader.read():
                     queues.read.put_nowait(response)
